@@ -148,6 +148,8 @@ fn replay(args: &Args) {
     let (mut n, mut distinct, mut bad, mut nodes_max, mut vbad) = (0u64, 0u64, 0u64, 0usize, 0u64);
     let mut feat_classes: HashSet<String> = HashSet::new();
     let mut nsamp = 0usize;
+    // streams that loaded correctly on their own, kept for the amplification stage
+    let mut pool: Vec<(u64, Stream, usize)> = vec![];
     for rec in lines_of(&args.pos[1]) {
         n += 1;
         let s = stream_of(&rec);
@@ -161,7 +163,12 @@ fn replay(args: &Args) {
         let feats = features(&s);
         feat_classes.insert(feats.join(","));
         let ytext = String::from_utf8_lossy(&text).into_owned();
-        if let Some((stage, detail)) = check_load(&text, &s) {
+        let loaded = check_load(&text, &s);
+        if loaded.is_none() && classes(&s).is_empty() && pool.len() < 60000 {
+            let ncoll: usize = s.docs.iter().map(|d| d.nodes.iter().filter(|n| n.k == "map" || n.k == "seq").count()).sum();
+            pool.push((n, s.clone(), ncoll));
+        }
+        if let Some((stage, detail)) = loaded {
             bad += 1;
             out.emit(json!({"id": n, "stage": stage, "class": class_for(&stage, &s), "yaml": ytext, "detail": detail, "features": feats, "rec": rec}));
         }
@@ -190,11 +197,88 @@ fn replay(args: &Args) {
             samples.emit(json!({"yaml": ytext, "json": want, "class": class_for("value", &s), "vclass": class_for("validate", &s)}));
         }
     }
+    // ------------------------------------------------------------------------------------
+    // amplification: concatenate already-checked behaviours of one break kind into one stream
+    // (`---` before every appended document) so that the stream holds 63..300+ collections,
+    // including the multiples of 64 +- 1; expected value = concatenation of the expected
+    // documents.  Index tables that are sized per 64 collections / nodes are only reached here.
+    // ------------------------------------------------------------------------------------
+    let reps = args.u64("amplify", 1);
+    let mut r = Rng::new(args.seed());
+    let (mut amp_n, mut amp_max, mut amp_bad) = (0u64, 0usize, 0u64);
+    const TARGETS: [usize; 16] = [62, 63, 64, 65, 66, 100, 126, 127, 128, 129, 130, 191, 192, 193, 257, 320];
+    for br in ["LF", "CRLF", "CR"] {
+        let idx: Vec<usize> = (0..pool.len()).filter(|&i| pool[i].1.br == br).collect();
+        let ones: Vec<usize> = idx.iter().copied().filter(|&i| pool[i].2 == 1).collect();
+        if idx.len() < 50 || ones.is_empty() {
+            continue;
+        }
+        for _ in 0..reps {
+            for &target in &TARGETS {
+                // the virtual root sequence counts as one collection
+                let mut total = 1usize;
+                let mut parts: Vec<usize> = vec![];
+                let mut tries = 0;
+                while total < target && tries < 20000 {
+                    tries += 1;
+                    let i = if target - total <= 2 { *r.pick(&ones) } else { *r.pick(&idx) };
+                    let c = pool[i].2;
+                    if c == 0 && r.below(4) != 0 {
+                        continue;
+                    }
+                    if total + c <= target {
+                        total += c;
+                        parts.push(i);
+                    }
+                }
+                if total != target {
+                    continue;
+                }
+                let mut docs = vec![];
+                for (k, &i) in parts.iter().enumerate() {
+                    for d in &pool[i].1.docs {
+                        let mut d = d.clone();
+                        if k > 0 {
+                            d.ds = true;
+                        }
+                        docs.push(d);
+                    }
+                }
+                let big = Stream { docs, br: br.to_string() };
+                let text = render(&big);
+                amp_n += 1;
+                amp_max = amp_max.max(total);
+                if do_validate {
+                    // C18: the strict validator must accept the amplified stream as well
+                    let verdict: Option<String> = match guarded(|| validate(&text)) {
+                        Ok(Ok(())) => None,
+                        Ok(Err(e)) => Some(format!("{} at offset {} line {} column {}", e.kind, e.position.offset, e.position.line, e.position.column)),
+                        Err(p) => Some(format!("panic: {p}")),
+                    };
+                    if let Some(v) = verdict {
+                        vbad += 1;
+                        let ids: Vec<u64> = parts.iter().map(|&i| pool[i].0).collect();
+                        out.emit(json!({"id": 0, "stage": "validate", "class": "", "yaml": String::from_utf8_lossy(&text), "features": ["amplified"],
+                            "detail": format!("validate rejected an amplified stream of {} well-formed behaviours ({} collections): {}", parts.len(), total, v),
+                            "rec": {"amplified_behaviour_ids": ids, "br": br, "collections": total}}));
+                    }
+                }
+                if let Some((stage, detail)) = check_load(&text, &big) {
+                    amp_bad += 1;
+                    let ids: Vec<u64> = parts.iter().map(|&i| pool[i].0).collect();
+                    let ytext = String::from_utf8_lossy(&text).into_owned();
+                    out.emit(json!({"id": 0, "stage": stage, "class": "", "yaml": ytext, "features": ["amplified"],
+                        "detail": format!("amplified stream of {} behaviours, {} collections incl. the root: {}", parts.len(), total, detail),
+                        "rec": {"amplified_behaviour_ids": ids, "br": br, "collections": total}}));
+                }
+            }
+        }
+    }
     let m = out.finish();
     samples.finish();
     println!(
         "{}",
-        json!({"behaviours": n, "distinct_documents": distinct, "load_mismatches": bad, "validate_rejections": vbad,
+        json!({"amplified_streams": amp_n, "amplified_max_collections": amp_max, "amplified_mismatches": amp_bad, "behaviours": n, "distinct_documents": distinct, "load_mismatches": bad, "validate_rejections": vbad,
                "mismatch_lines": m, "max_nodes": nodes_max, "feature_classes": feat_classes.len(), "cli_samples": nsamp})
     );
 }
